@@ -26,11 +26,11 @@ TRUST = ("Trusted base: the harness (plan generator, scheduler, simulated raw de
 
 C = {
     "C06": ("exploration",
-            "Seeded simulated runs: every generated chart is stored on a simulated disk in many variants (section permutation x LF/CRLF x BOM x unknown sections incl. case variants of the 40 names x header subsets covering all 40 names x file names with braces / per-cent signs / non-ASCII x special files whose stat size is 0) and read back by path and through several reader kinds while the raw device short-reads, splits CRLF/BOM/multi-byte sequences across reads, raises EINTR or EIO; a quarter of the runs read their variants from two concurrent clients in a cold process; faults are injected inside the parse of one section; another chart with other difficulties is parsed first. Oracle: a routing model (header -> key/label/content) plus equality with the canonical variant computed in a forked pristine process, one counted report per unknown section, ValueError for a missing required section; a faulted read may fail, never return wrong data. Sampling over inputs, I/O schedules and interleavings; not a proof. A tenth of every batch each runs under python -O, python -OO and the C locale without UTF-8 mode; 1 run in 7 has debug logging enabled and 1 in 11 treats warnings as errors (references are always computed in the default process state).",
+            "Seeded simulated runs: every generated chart is stored on a simulated disk in many variants (section permutation x LF/CRLF x BOM x unknown sections incl. case variants of the 40 names x header subsets covering all 40 names x file names with braces / per-cent signs / non-ASCII x special files whose stat size is 0) and read back by path and through several reader kinds while the raw device short-reads, splits CRLF/BOM/multi-byte sequences across reads, raises EINTR or EIO; a quarter of the runs read their variants from two concurrent clients in a cold process; faults are injected inside the parse of one section; another chart with other difficulties is parsed first. Oracle: a routing model (header -> key/label/content) plus equality with the canonical variant computed in a forked pristine process, one counted report per unknown section, ValueError for a missing required section; a faulted read may fail, never return wrong data. Sampling over inputs, I/O schedules and interleavings; not a proof. A tenth of every batch each runs under python -O, python -OO and the C locale without UTF-8 mode; 1 run in 7 has debug logging enabled and 1 in 11 treats warnings as errors (references are always computed in the default process state). Threads, locks, conditions, queues and thread pools that the library makes ITSELF are owned by the simulator too (detsim.simthreads): such threads are adopted as clients of the same seeded scheduler, blocking goes through cooperative locks, timed waits use simulated time, a run in which no thread can proceed is reported as a deadlock; a quarter of the scheduled runs also pre-empt inside lock-free stdlib call-backs of C-level container operations (Enum.__hash__, descriptor __get__, Sequence mix-ins), where a 'callback window' policy lets another thread in for a long stretch. One run in 13 is made with a low-precision per-thread decimal context set by the application. In the interpreter-configuration slices a canonical variant that is rejected is re-parsed in a default-mode interpreter of the same tree: parses there => framing depends on how the interpreter was started => violation.",
             TRUST + "The header table (40 names -> enum member names) is the harness' own copy of the file format.",
             "deterministic simulation: simulated disk + I/O fault tapes under the real io stack, routing/invariance oracle", "DESIGN.md §4 C06"),
     "C11": ("exploration",
-            "Seeded simulated runs in three parts: (a) client sessions on a shared tempo map (optionally with a second chart of another resolution queried at the same time, after another chart of the same shape was loaded, queried and dropped under in-run allocator shifts, and on maps of 1100-2600 tempo events) that feed returned indices back as hints, judged by a governing-index model; (b) record reorder/dup/drop/move faults on every section of a stored chart with the oracle 'ValueError, or every stored timestamp equals the un-hinted query'; (c) a call-site monitor on every real timestamp_at_tick call during parsing that re-evaluates with lowered hints. Sampling, not enumeration. A tenth of every batch each runs under python -O, python -OO and the C locale without UTF-8 mode; 1 run in 7 has debug logging enabled and 1 in 11 treats warnings as errors (references are always computed in the default process state).",
+            "Seeded simulated runs in three parts: (a) client sessions on a shared tempo map (optionally with a second chart of another resolution queried at the same time, after another chart of the same shape was loaded, queried and dropped under in-run allocator shifts, and on maps of 1100-2600 tempo events) that feed returned indices back as hints, judged by a governing-index model; (b) record reorder/dup/drop/move faults on every section of a stored chart with the oracle 'ValueError, or every stored timestamp equals the un-hinted query'; (c) a call-site monitor on every real timestamp_at_tick call during parsing that re-evaluates with lowered hints. Sampling, not enumeration. A tenth of every batch each runs under python -O, python -OO and the C locale without UTF-8 mode; 1 run in 7 has debug logging enabled and 1 in 11 treats warnings as errors (references are always computed in the default process state). Sessions also require that the timestamp stored on a tempo event equals the un-hinted query for its tick at any later time and on any thread (one run in 13 lowers the application's decimal precision after the chart was loaded); the stored==un-hinted oracle is applied to pickle / deepcopy / shallow copies of parsed charts as well; a third of the tempo values are drawn from the whole thousandth-BPM range.",
             TRUST + "The governing-index model (max i with tick_i <= t) is recomputed from the parsed tempo ticks.",
             "deterministic simulation: hint-feedback sessions under the scheduler, record-order storage faults, call-site monitor", "DESIGN.md §4 C11"),
     "C13": ("exploration",
@@ -42,11 +42,11 @@ C = {
             TRUST + "Strict junk shapes are only those the property texts call unparsable; every other candidate is judged relative to the code's own verdict (warned => must be local).",
             "deterministic simulation: line-granular storage faults, conservation/locality oracles, kind-order permutation at the dispatcher seam", "DESIGN.md §4 C14"),
     "C15": ("fault_enumeration",
-            "For each seeded chart, EVERY single corruption of the sync data at EVERY position is applied, plus ordered PAIRS of such corruptions (all of them up to a per-chart cap, a seeded sample above it) (resolution 0; drop/shift the tick-0 tempo or signature; duplicate tempo k's tick; swap every pair of tempo lines; tempo k -> 0 for each k), and the verdict of every resulting file is computed from the stored bytes by the trust-rule predicate (must raise ValueError / unspecified / may parse / nothing demanded). Around that: a third of the rejected files are retried at once, a quarter are preceded by an acceptable chart that carries the corrupt lines as stray lines, zero-tempo charts are loaded after a healthy chart was queried and dropped (swept over allocator shifts) and queried by two scheduled reader threads, a quarter of the charts are read through a short-reading reader, 4 % have 18-40 tempo events. Exhaustive over (kind x position) per chart for single faults; charts are seeded samples. A tenth of every batch each runs under python -O, python -OO and the C locale without UTF-8 mode; 1 run in 7 has debug logging enabled and 1 in 11 treats warnings as errors (references are always computed in the default process state).",
+            "For each seeded chart, EVERY single corruption of the sync data at EVERY position is applied, plus ordered PAIRS of such corruptions (all of them up to a per-chart cap, a seeded sample above it) (resolution 0; drop/shift the tick-0 tempo or signature; duplicate tempo k's tick; swap every pair of tempo lines; tempo k -> 0 for each k), and the verdict of every resulting file is computed from the stored bytes by the trust-rule predicate (must raise ValueError / unspecified / may parse / nothing demanded). Around that: a third of the rejected files are retried at once, a quarter are preceded by an acceptable chart that carries the corrupt lines as stray lines, zero-tempo charts are loaded after a healthy chart was queried and dropped (swept over allocator shifts) and queried by two scheduled reader threads, a quarter of the charts are read through a short-reading reader, 4 % have 18-40 tempo events. Exhaustive over (kind x position) per chart for single faults; charts are seeded samples. A tenth of every batch each runs under python -O, python -OO and the C locale without UTF-8 mode; 1 run in 7 has debug logging enabled and 1 in 11 treats warnings as errors (references are always computed in the default process state). One chart in 12 carries 17-76 unparsable lines inside every corrupted sync section (a dispatcher that gives up on a noisy section never sees the corruption behind the noise).",
             TRUST + "The sync trust rule (five rejection conditions + zero-tempo governing rule) is the harness' executable reading of the property.",
             "deterministic simulation: exhaustive single-fault enumeration (plus fault pairs) over seeded charts, trust-rule predicate as exact must-raise oracle", "DESIGN.md §4 C15"),
     "C17": ("exploration",
-            "Flagship. Seeded simulated runs: corpus of 3-8 texts (incl. failing ones, texts with stray and foreign lines, duplicated [Song] fields, eight-digit ticks, occasionally a few-thousand-line chart), 1-4 caller threads with histories of parses, a deterministic line-level (20 %: bytecode-level) scheduler (geometric / PCT / sequential / write- and shared-state-biased), and separate fault sub-batches: result-preserving I/O behaviour, EIO, abort at an arbitrary / targeted / cold line (cancellation, MemoryError, OSError), memo tables + regex cache cleared and a GC pass at random boundaries, long histories under allocator shifts, churn (results dropped while other threads parse), caller-object faults (log handler raises or re-enters the parser, selection sequence raises, reader raises); stored files are replaced in place by same-length texts with the same modification time; callers reuse their selection objects; parses with logging switched off. Every completed parse must equal (observation digest incl. classes and key order, exception, ==, event hashes) a single parse of the same text in a process forked from the pristine image; a faulted parse may fail, never return another chart; samples are cross-checked through a plain in-memory read and in fresh interpreters under random PYTHONHASHSEED and several process environments (locale, UTF-8 mode, dev mode, -O/-OO). Sampling over histories and schedules; not a proof. A tenth of every batch each runs under python -O, python -OO and the C locale without UTF-8 mode; 1 run in 7 has debug logging enabled and 1 in 11 treats warnings as errors (references are always computed in the default process state).",
+            "Flagship. Seeded simulated runs: corpus of 3-8 texts (incl. failing ones, texts with stray and foreign lines, duplicated [Song] fields, eight-digit ticks, occasionally a few-thousand-line chart), 1-4 caller threads with histories of parses, a deterministic line-level (20 %: bytecode-level) scheduler (geometric / PCT / sequential / write- and shared-state-biased), and separate fault sub-batches: result-preserving I/O behaviour, EIO, abort at an arbitrary / targeted / cold line (cancellation, MemoryError, OSError), memo tables + regex cache cleared and a GC pass at random boundaries, long histories under allocator shifts, churn (results dropped while other threads parse), caller-object faults (log handler raises or re-enters the parser, selection sequence raises, reader raises); stored files are replaced in place by same-length texts with the same modification time; callers reuse their selection objects; parses with logging switched off. Every completed parse must equal (observation digest incl. classes and key order, exception, ==, event hashes) a single parse of the same text in a process forked from the pristine image; a faulted parse may fail, never return another chart; samples are cross-checked through a plain in-memory read and in fresh interpreters under random PYTHONHASHSEED and several process environments (locale, UTF-8 mode, dev mode, -O/-OO). Sampling over histories and schedules; not a proof. A tenth of every batch each runs under python -O, python -OO and the C locale without UTF-8 mode; 1 run in 7 has debug logging enabled and 1 in 11 treats warnings as errors (references are always computed in the default process state). Threads, locks, conditions, queues and thread pools that the library makes ITSELF are owned by the simulator too (detsim.simthreads): such threads are adopted as clients of the same seeded scheduler, blocking goes through cooperative locks, timed waits use simulated time, a run in which no thread can proceed is reported as a deadlock; a quarter of the scheduled runs also pre-empt inside lock-free stdlib call-backs of C-level container operations (Enum.__hash__, descriptor __get__, Sequence mix-ins), where a 'callback window' policy lets another thread in for a long stretch. One run in 13 is made with a low-precision per-thread decimal context set by the application.",
             TRUST + "Pre-emption granularity is the source line inside chartparse frames; C calls are atomic.",
             "deterministic simulation: baton-passing threads pre-empted at line events, abort/EIO/I-O fault injection, fresh-process reference", "DESIGN.md §4 C17"),
     "C18": ("exploration",
@@ -54,11 +54,11 @@ C = {
             TRUST + "Inputs outside the property's numeric bounds (digit runs > 8, TS exponent >= 64) are discarded and counted.",
             "deterministic simulation: seeded storage-fault sequences, exception-type oracle", "DESIGN.md §4 C18"),
     "C19": ("exploration",
-            "Seeded simulated runs: one shared parsed chart (+ an untouched twin), 1-4 reader threads with histories of read-only operations (subscripting by all instruments, rate queries in every argument form incl. failing ones, tick-to-time queries with legal/illegal hints, rendering, comparison, hashing, derived attributes, assignment attempts) under the line-level scheduler. After every operation: observation unchanged, twin equality both ways, result equals the same operation on a fresh parse, assignment rejected. A third of the concurrent runs are 'cold': the harness does not observe the shared chart before or between operations (so lazily computed attributes are first touched by the racing readers) and judges observation and twin equality once at the end against the untouched twin. 40 % of the runs keep a second chart with a different track set in the process and direct 30 % of the operations at it; 30 % parse the shared chart with a selection; 20 % inject aborts inside read-only operations; operations include copy / deepcopy / pickle / dataclasses.replace; every result is also compared with the same operation on a fresh parse in a process forked from the pristine image; event hashes of chart and twin must agree. Sampling over histories and schedules. A tenth of every batch each runs under python -O, python -OO and the C locale without UTF-8 mode; 1 run in 7 has debug logging enabled and 1 in 11 treats warnings as errors (references are always computed in the default process state).",
+            "Seeded simulated runs: one shared parsed chart (+ an untouched twin), 1-4 reader threads with histories of read-only operations (subscripting by all instruments, rate queries in every argument form incl. failing ones, tick-to-time queries with legal/illegal hints, rendering, comparison, hashing, derived attributes, assignment attempts) under the line-level scheduler. After every operation: observation unchanged, twin equality both ways, result equals the same operation on a fresh parse, assignment rejected. A third of the concurrent runs are 'cold': the harness does not observe the shared chart before or between operations (so lazily computed attributes are first touched by the racing readers) and judges observation and twin equality once at the end against the untouched twin. 40 % of the runs keep a second chart with a different track set in the process and direct 30 % of the operations at it; 30 % parse the shared chart with a selection; 20 % inject aborts inside read-only operations; operations include copy / deepcopy / pickle / dataclasses.replace; every result is also compared with the same operation on a fresh parse in a process forked from the pristine image; event hashes of chart and twin must agree. Sampling over histories and schedules. A tenth of every batch each runs under python -O, python -OO and the C locale without UTF-8 mode; 1 run in 7 has debug logging enabled and 1 in 11 treats warnings as errors (references are always computed in the default process state). Threads, locks, conditions, queues and thread pools that the library makes ITSELF are owned by the simulator too (detsim.simthreads): such threads are adopted as clients of the same seeded scheduler, blocking goes through cooperative locks, timed waits use simulated time, a run in which no thread can proceed is reported as a deadlock; a quarter of the scheduled runs also pre-empt inside lock-free stdlib call-backs of C-level container operations (Enum.__hash__, descriptor __get__, Sequence mix-ins), where a 'callback window' policy lets another thread in for a long stretch. One run in 13 is made with a low-precision per-thread decimal context set by the application. Stampede runs: every reader starts with the same cold read (far tick look-ups, rate query, derived attribute, rendering). Sampled runs end with a pickle consumer in ANOTHER interpreter (another hash seed): what it observes for the used chart (after hashing all its events) must equal what it observes for the untouched twin.",
             TRUST + "The sequential model is a fresh parse of the same text by the real parser.",
             "deterministic simulation: concurrent reader histories under a seeded scheduler, immutable-value model", "DESIGN.md §4 C19"),
     "C20": ("exploration",
-            "One fresh interpreter per import history: all first-imports and all ordered pairs of the package's modules exhaustively (ordered triples in the thorough tier), seeded longer permutations, 'import a.b', 'from a.b import *', 'from a import b' and importlib forms, random PYTHONHASHSEED. Oracle: every history succeeds, every import statement hands out the module it names, the history leaves the same public names bound to the same objects as the canonical order, and a smoke parse gives the canonical observation. Fault-injected histories interrupt the first import at a seeded line of the package's module / class bodies and retry it (judged when the interpreter kept the package object). A fifth of the histories run with warnings as errors and nothing compiled yet; environment variables the package source reads are set to odd values in a third; a tenth each run under python -O, -OO and the C locale. Exhaustive for histories of length <= 2 (<= 3 thorough); longer ones sampled.",
+            "One fresh interpreter per import history: all first-imports and all ordered pairs of the package's modules exhaustively (ordered triples in the thorough tier), seeded longer permutations, 'import a.b', 'from a.b import *', 'from a import b' and importlib forms, random PYTHONHASHSEED. Oracle: every history succeeds, every import statement hands out the module it names, the history leaves the same public names bound to the same objects as the canonical order, and a smoke parse gives the canonical observation. Fault-injected histories interrupt the first import at a seeded line of the package's module / class bodies and retry it (judged when the interpreter kept the package object). A fifth of the histories run with warnings as errors and nothing compiled yet; environment variables the package source reads are set to odd values in a third; a tenth each run under python -O, -OO and the C locale. Exhaustive for histories of length <= 2 (<= 3 thorough); longer ones sampled. One history in 8 imports the package from a zip archive (zipimport: __file__ names no real file).",
             TRUST + "The module list is discovered from chartparse/*.py at run time; concurrent first-imports from two threads are not part of the property.",
             "deterministic simulation: one interpreter per import history (exhaustive short histories, seeded long ones), identity-snapshot oracle", "DESIGN.md §4 C20"),
 }
@@ -98,7 +98,7 @@ def main() -> None:
         "engines": [{
             "name": "detsim", "path": "/verif/detsim",
             "serves_properties": [c["property_id"] for c in checks],
-            "kind_free_text": "deterministic simulator written for this task: one integer -> explicit JSON plan -> isolated run (forked from a pristine image) -> verdict; baton-passing real threads pre-empted at sys.settrace line events; simulated raw disk under the real io stack; storage-corruption operators; abort/EIO/EINTR fault injection; plan-level minimisation; replay confirmed in a fresh process",
+            "kind_free_text": "deterministic simulator written for this task: one integer -> explicit JSON plan -> isolated run (forked from a pristine image) -> verdict; baton-passing real threads pre-empted at sys.settrace line events (caller threads AND threads the library starts itself, with cooperative locks and simulated time: detsim/simthreads.py); simulated raw disk under the real io stack; storage-corruption operators; abort/EIO/EINTR fault injection; plan-level minimisation; replay confirmed in a fresh process",
         }],
         "checks": checks,
         "notes": "See DESIGN.md. Properties that are pure functions of their input are listed under not_applicable (the technique studied here does not decide them and no other technique was substituted). KNOWN_FINDINGS.txt records the genuine defects found and repaired (fix: commits in /repo).",
